@@ -161,6 +161,15 @@ reg("C17", "differential monitor against the reference implementation: Gymnasium
     "Trusts Gymnasium 1.3.0 and the MuJoCo 3.13 C engine as reference; steps with contacts are compared structurally only (MJX and the C engine are "
     "different solvers); float32/float64 threshold ties excluded and counted; ContinuousMountainCar actions taken inside the action space.")
 
+reg("C02", "invariant monitor over jitted scan rollouts through the real env.step (auto-reset) for every built-in environment, constructor variants and wrapper stacks: NumPy membership model on every emitted observation / sampled action / reward / flag; re-run in process and in a fresh interpreter",
+    "Held on every rollout explored (apart from the listed 1-ulp rounding finding of RescaleObservation): every observation emitted along vmapped scan "
+    "rollouts (sampled, bound-corner and constant-extreme actions; classic control 64 keys x 2000-4000 steps, MuJoCo and G1 shorter) has the declared "
+    "shape and dtype, no NaN, and lies within the declared bounds; sampled actions are members and accepted; contains agrees with the model; rewards are "
+    "finite float scalars and flags boolean scalars; declared MuJoCo observation sizes follow the v5 formula after toggling flags; the same batch re-run in "
+    "process, on a rebuilt env and in a fresh interpreter with another hash seed is bit-identical.",
+    "Trusts the NumPy membership model; pre-reset successors judged for classic control only (MuJoCo/G1 boxes are unbounded); RescaleObservation/"
+    "RescaleAction used only over bounded boxes; quick tier = classic control + InvertedPendulum + HalfCheetah.")
+
 
 def main():
     props = [json.loads(l) for l in (ROOT / "properties.jsonl").read_text().splitlines() if l.strip()]
